@@ -26,6 +26,8 @@ ExplainsWhere(e) ==
          IN  /\ Len(e.impls) = ImplCount(e.P.t)
              /\ \A i \in DOMAIN e.impls : Range(e.impls[i]) = W
              /\ ((Len(e.P.D) = 1 \/ e.strict) => e.nerr = 0)
+             \* declared inline bounds (incl. those that mention `Self`) are carried over to every impl as written
+             /\ ("generics_ok" \in DOMAIN e => \A i \in DOMAIN e.generics_ok : e.generics_ok[i])
 
 \* C03 (iii): the generic impl with its default bounds type-checks
 ExplainsCompiles(e) == e.rustc_ok
